@@ -31,11 +31,11 @@ POOLS = {
 CONFIGS = {
     "C01": dict(quick=["Layout_pair_quick", "Layout_pair_big"], thorough=["Layout_pair_thorough", "Layout_pair_big"], targets=["LAMMPS"]),
     "C02": dict(quick=["Layout_pair_quick", "Layout_pair_big"], thorough=["Layout_pair_thorough", "Layout_pair_big"], targets=["DLPOLY"]),
-    "C03": dict(quick=["Layout_eam_quick"], thorough=["Layout_eam_thorough"], targets=["setfl"]),
-    "C04": dict(quick=["Layout_fs_quick"], thorough=["Layout_fs_thorough"], targets=["setfl_fs", "DL_POLY_EAM_fs", "excel_eam_fs"]),
-    "C05": dict(quick=["Layout_eam_quick", "Layout_fs_quick"], thorough=["Layout_eam_thorough", "Layout_fs_thorough"],
+    "C03": dict(quick=["Layout_eam_quick", "Layout_eamu_quick"], thorough=["Layout_eam_thorough", "Layout_eamu_quick"], targets=["setfl"]),
+    "C04": dict(quick=["Layout_fs_quick", "Layout_fsu_quick"], thorough=["Layout_fs_thorough", "Layout_fsu_thorough"], targets=["setfl_fs", "DL_POLY_EAM_fs", "excel_eam_fs"]),
+    "C05": dict(quick=["Layout_eam_quick", "Layout_fs_quick", "Layout_eamu_quick", "Layout_fsu_quick"], thorough=["Layout_eam_thorough", "Layout_fs_thorough", "Layout_eamu_quick", "Layout_fsu_thorough"],
                 targets=["DL_POLY_EAM", "DL_POLY_EAM_fs"]),
-    "C19": dict(quick=["Layout_pair_quick", "Layout_pair_big", "Layout_eam_quick", "Layout_fs_quick", "Layout_adp_quick", "Layout_funcfl"],
+    "C19": dict(quick=["Layout_pair_quick", "Layout_pair_big", "Layout_eam_quick", "Layout_eamu_quick", "Layout_fs_quick", "Layout_adp_quick", "Layout_funcfl"],
                 thorough=["Layout_pair_thorough", "Layout_pair_big", "Layout_eam_thorough", "Layout_fs_thorough", "Layout_adp_thorough", "Layout_funcfl"],
                 targets=["GULP", "excel", "excel_eam", "excel_eam_fs", "eam_adp", "funcfl"]),
 }
